@@ -181,11 +181,12 @@ Definition den_pt (rmax : N) (s : source) : den :=
 Definition den_chrkey (s : source) : den :=
   match s with
   | SText None _ | SText (Some []) _ => DDefault
-  | SText (Some t) _ => match skip_space t with [] => DKeep | c :: _ => DVal (PChr (Z.of_N c)) end
+  | SText (Some t) _ => match skip_space t with [] => DDefault | c :: _ => DVal (PChr (Z.of_N c)) end
   | _ => den_num NChr s
   end.
-(* white-space-only text counts as a conversion that assigns nothing (the known finding of C07 about
-   mpt_convert_string): the count is kept, but a logarithmic axis is taken out of logarithmic mode (count 0) *)
+(* white-space-only text is nothing converted, like the empty text (mpt_convert_string as patched by
+   docs/C07_convert_string_space.diff): the interval count goes back to its default; the CKeep branch is no longer
+   reached from text *)
 Definition den_intv (cur : option pval) (s : source) : den :=
   match src_number NU8 s with
   | CZero => DDefault
